@@ -81,6 +81,7 @@ def draw_and_judge(res, c, label, order, labels, compact, cfgname):
             kw['channel_order'] = list(order)
         if labels is not None:
             kw['channel_map'] = dict(labels)
+        given = (list(kw.get('channel_order', [])), dict(kw.get('channel_map', {})))
         with spying() as spy:
             try:
                 dc.plot_circuit(c, compact_visualization=compact, **kw)
@@ -89,6 +90,8 @@ def draw_and_judge(res, c, label, order, labels, compact, cfgname):
                 res.fail('C18-raises', '%s: plot_circuit(order=%r, map=%r, compact=%r) raised %s: %s' % (label, order, labels, compact, type(e).__name__, str(e)[:200]))
                 return None
         world.close_figures()
+        if (list(kw.get('channel_order', [])), dict(kw.get('channel_map', {}))) != given:
+            res.fail('C18-arguments-changed', '%s: plot_circuit changed the channel order / label map it was given: %r -> %r' % (label, given, (kw.get('channel_order'), kw.get('channel_map'))))
         after = snapshot(c)
         if before != after:
             diff = [k for k in before if before[k] != after[k]]
